@@ -136,7 +136,7 @@ class Upstream:
     """Scripted upstream DNS server (UDP + TCP) on one address, port 53.
 
     script(qname_lower, proto, nth_transmission, query_bytes) -> list of actions, each
-      ("reply", bytes, delay_s) | ("drop",) ; bytes get the query's id patched in unless the action
+      ("reply", bytes, delay_s) | ("drop",) | ("split", bytes, delay_s, cut, pause_s) ; bytes get the query's id patched in unless the action
       is ("raw", bytes, delay_s).
     Every received query and every sent reply is appended to self.events (monotonic clock).
     """
@@ -220,13 +220,18 @@ class Upstream:
             threading.Thread(target=waiter, daemon=True).start()
             return
         data = a[1]
-        if a[0] == "reply":
+        if a[0] in ("reply", "split"):
             data = q[:2] + data[2:]
         delay = a[2] if len(a) > 2 else 0
 
         def fire():
             try:
-                send(data)
+                if a[0] == "split" and proto == "tcp":
+                    # ("split", bytes, delay, cut, pause): the framed reply leaves in two writes with a pause in between,
+                    # as a congested or segmenting path would deliver it
+                    send(data, a[3], a[4])
+                else:
+                    send(data)
                 self.log("reply", proto=proto, qname=p.qname if p else None, n=len(data))
             except OSError as e:
                 self.log("send-error", proto=proto, err=str(e))
@@ -265,9 +270,15 @@ class Upstream:
                     return
                 p, actions = self._actions(q, "tcp")
 
-                def send(data, c=c):
+                def send(data, cut=None, pause=0.0, c=c):
+                    framed = struct.pack(">H", len(data)) + data
                     with wlock:
-                        c.sendall(struct.pack(">H", len(data)) + data)
+                        if cut is None:
+                            c.sendall(framed)
+                        else:
+                            c.sendall(framed[:cut])
+                            time.sleep(pause)
+                            c.sendall(framed[cut:])
 
                 for a in actions:
                     self._do(a, q, p, send, "tcp")
